@@ -423,12 +423,25 @@ class Sccp:
                     for d, name in rv.get("variants", []):
                         if name == fv[1]:
                             return I(d)
+        if k == "un" and rv["op"] == "PtrMetadata":
+            # the length of a slice: a row may model the slice (a field) by its length
+            a = self._operand(env, rv["a"])
+            return a if a is not None and a[0] == "i" else None
         if k == "un" and rv["op"] == "Not":
             a = self._operand(env, rv["a"])
             if a and a[0] == "i" and a[1] in (0, 1):
                 return I(1 - a[1])
             if a and a[0] == "s" and all(x[0] == "i" and x[1] in (0, 1) for x in a[1]):
                 return ("s", frozenset(I(1 - x[1]) for x in a[1]))
+            return None
+        if k == "bin" and rv["op"] in ("Add", "Sub", "AddWithOverflow", "SubWithOverflow", "AddUnchecked", "SubUnchecked"):
+            a = self._operand(env, rv["a"])
+            b = self._operand(env, rv["b"])
+            if a and b and a[0] == "i" and b[0] == "i":
+                v = a[1] + b[1] if rv["op"].startswith("Add") else a[1] - b[1]
+                if v < 0:
+                    return None
+                return ("t", (I(v), I(0))) if rv["op"].endswith("WithOverflow") else I(v)
             return None
         if k == "bin" and rv["op"] in ("Eq", "Ne", "Lt", "Le", "Gt", "Ge", "BitAnd", "BitOr", "BitXor"):
             a = self._operand(env, rv["a"])
